@@ -63,6 +63,22 @@ def make_wav(path):
     data = bytes((i * 7) % 256 for i in range(n))
     hdr = b"RIFF" + struct.pack("<I", 36 + n) + b"WAVEfmt " + struct.pack("<IHHIIHH", 16, 1, 1, 8000, 8000, 1, 8) + b"data" + struct.pack("<I", n)
     open(path, "wb").write(hdr + data)
+    # the same sound as 16-bit PCM (<wav>.16): external samples reach the mixer in both voice formats
+    d16 = b"".join(struct.pack("<h", ((b - 128) << 8)) for b in data)
+    hdr = (b"RIFF" + struct.pack("<I", 36 + len(d16)) + b"WAVEfmt " + struct.pack("<IHHIIHH", 16, 1, 1, 8000, 16000, 2, 16)
+           + b"data" + struct.pack("<I", len(d16)))
+    open(path + ".16", "wb").write(hdr + d16)
+
+    # files xmp_smix_load_sample must refuse: header fields it cannot hold in memory, other layouts
+    def riff(chn, bits, size, body):
+        return (b"RIFF" + struct.pack("<I", 36 + len(body)) + b"WAVEfmt " + struct.pack("<IHHIIHH", 16, 1, chn, 8000, 8000, 1, bits)
+                + b"data" + struct.pack("<I", size & 0xffffffff) + body)
+    open(path + ".short", "wb").write(riff(1, 8, 4 * n, data))
+    open(path + ".neg", "wb").write(riff(1, 8, -4, data))
+    open(path + ".big", "wb").write(riff(1, 8, 0x7ffffffc, data))
+    open(path + ".b4", "wb").write(riff(1, 4, n, data))
+    open(path + ".b1", "wb").write(riff(1, 1, n, data))
+    open(path + ".st", "wb").write(riff(2, 8, n, data))
 
 
 def pick_modules(ck, n):
@@ -70,6 +86,8 @@ def pick_modules(ck, n):
     files = [f for f in allf if 2000 < os.path.getsize(f) < 300000]
     # the repository's own small test modules are always in (test.xm: instruments != samples)
     fixed = [f for f in allf if "/test/test." in f and f.endswith((".xm", ".it", ".s3m", ".mod")) and os.path.getsize(f) < 300000]
+    # one Amiga module (period table, Paula mixer, Protracker quirks) is always in as well
+    fixed += [f for f in allf if f.endswith("/ode2ptk.mod")][:1]
     rest = [f for f in files if f not in fixed and not any(f.endswith(x) for x in (".gz", ".bz2", ".xz", ".zip", ".lha", ".Z", ".itz"))]
     ck.rng.shuffle(rest)
     return fixed + rest[:n]
@@ -232,7 +250,7 @@ def walk_sequences(quick):
     one = {  # fname -> list of argument tuples
         "set_position": [(v,) for v in b(4)], "set_row": [(v,) for v in b(64)], "seek_time": [(v,) for v in b(1000)],
         "inject_event": [(v, 4660) for v in b(4)], "get_player": [(v,) for v in b(14)] + [(v,) for v in range(14)],
-        "smix_release_sample": [(v,) for v in b(2)], "smix_load_sample": [(v, k) for v in b(2) for k in (0, 1, 2)],
+        "smix_release_sample": [(v,) for v in b(2)], "smix_load_sample": [(v, k, j) for v in b(2) for k in (0, 1, 2) for j in range({0: 2, 1: 2, 2: 6}[k])],
         "start_player": [(r, f) for r in (INT_MIN, -1, 0, 3999, 4000, 7999, 8000, 44100, 48000, 48001, 49170, 49171, INT_MAX)
                          for f in (0, 7, -1, INT_MIN, INT_MAX)],
         "play_buffer": [(nul, sz, lp) for nul in (0, 1) for sz in (INT_MIN, -1, 0, 1, 7, 4096, INT_MAX) for lp in (INT_MIN, -1, 0, 1, INT_MAX)],
